@@ -140,7 +140,7 @@ theorem dec_arrHdr (fuel n : Nat) (body : Bytes) (h : n < maxLen) :
     · simp [decF, classify, readBE_append (show n < 256 ^ 4 by omega)]
 
 theorem dec_mapHdr (fuel n : Nat) (body : Bytes) (h : n < maxLen) :
-    decF (fuel + 1) (mapHdr n ++ body) = mapV .dict (decPairs decKey (decF fuel) n body) := by
+    decF (fuel + 1) (mapHdr n ++ body) = mapV .dict (decPairs decKey (decF fuel) n [] body) := by
   unfold maxLen at h
   unfold mapHdr
   split
@@ -201,7 +201,7 @@ mutual
         | succ fuel =>
           simp [validB] at hv
           simp [depth] at hd
-          rw [enc, List.append_assoc, dec_mapHdr fuel _ _ hv.1, decPairs_enc d fuel rest hv.2 hd]
+          rw [enc, List.append_assoc, dec_mapHdr fuel _ _ hv.1.1, decPairs_enc d [] fuel rest hv.2 hv.1.2 hd]
           rfl
   theorem decItems_enc : ∀ (l : List CVal) (fuel : Nat) (rest : Bytes), validListB maxLen l = true →
       depthList l < fuel → decItems (decF fuel) l.length (encList l ++ rest) = .ok (l, rest)
@@ -211,15 +211,18 @@ mutual
         simp [depthList] at hd
         simp [encList, decItems, List.append_assoc, decF_enc v fuel (encList vs ++ rest) hv.1 (by omega),
           decItems_enc vs fuel rest hv.2 (by omega)]
-  theorem decPairs_enc : ∀ (d : List (Bytes × CVal)) (fuel : Nat) (rest : Bytes), validDictB maxLen d = true →
-      depthDict d < fuel → decPairs decKey (decF fuel) d.length (encDict d ++ rest) = .ok (d, rest)
-    | [], _, _, _, _ => by simp [encDict, decPairs]
-    | (k, v) :: r, fuel, rest, hv, hd => by
+  theorem decPairs_enc : ∀ (d : List (Bytes × CVal)) (seen : List Bytes) (fuel : Nat) (rest : Bytes),
+      validDictB maxLen d = true → noDupFrom seen d = true →
+      depthDict d < fuel → decPairs decKey (decF fuel) d.length seen (encDict d ++ rest) = .ok (d, rest)
+    | [], _, _, _, _, _, _ => by simp [encDict, decPairs]
+    | (k, v) :: r, seen, fuel, rest, hv, hn, hd => by
         simp [validDictB] at hv
+        simp [noDupFrom] at hn
         simp [depthDict] at hd
         have hk := decKey_str k (enc v ++ (encDict r ++ rest)) hv.1.1
         simp [encDict, decPairs, List.append_assoc] at hk ⊢
-        simp [hk, decF_enc v fuel (encDict r ++ rest) hv.1.2 (by omega), decPairs_enc r fuel rest hv.2 (by omega)]
+        simp [hk, hn.1, decF_enc v fuel (encDict r ++ rest) hv.1.2 (by omega),
+          decPairs_enc r (k :: seen) fuel rest hv.2 hn.2 (by omega)]
 end
 
 
